@@ -1,9 +1,21 @@
 """C09 Execution history is a gap-free, ordered, faithful log."""
 from contracts import records as R, engine as E
+from props import C02
 
 
 def build(P):
     P.category = "other"
-    P.use_contracts("arn", "engine")
-    P.verify(E.SE + "StateEngine.update_execution_history", R.update_execution_history_contract(), tags=("C09",), order=("z3old", "z3new", "cvc5"), timeout=60, jobs=8)
-    P.explanation = "history"
+    C02.setup(P)
+    P.verify(E.SE + "StateEngine.update_execution_history", R.update_execution_history_contract(), tags=("C09",),
+             order=("z3old", "z3new", "cvc5"), timeout=60, jobs=8)
+    P.verify(E.SE + "StateEngine.start_execution", R.start_execution_contract(), tags=("C09",))
+    P.verify(E.SE + "StateEngine.end_execution", R.end_execution_contract(), tags=("C09",))
+    P.verify(E.SE + "StateEngine.change_state", tags=("C09",))
+    P.explanation = ("update_execution_history on its real body: an event is appended at the end with id = length + 1 and "
+                     "previousEventId = id - 1, earlier events untouched, timestamp a (monotone) clock read, details attached, "
+                     "EXPRESS stores nothing; start_execution logs ExecutionStarted (history reset first); end_execution logs "
+                     "exactly one terminal event that agrees with the record, before the notification; change_state logs "
+                     "StateExited with the output before the transition.")
+    P.not_decided = ["nothing appended after the terminal event; cross-event ordering (histories over schedules)",
+                     "StateEntered suppression on retry / Map re-entry lives in the body of notify (not yet under contract)",
+                     "reverseOrder in GetExecutionHistory (REST layer) not yet under contract"]
